@@ -354,7 +354,10 @@ def refusal_table(b, v, site_bb, start_bb, roots, parent):
         if t[0] != "switch" or t[4] != "bool" or not b.dominates(start_bb, u) or not b.can_reach(u, site_bb):
             continue
         c = v.operand(t[1], u, len(b.stmts(u)))
-        atoms[u] = norm(vf.render(c, parent, roots, short=True, vfx={b.key: v}))
+        txt = norm(vf.render(c, parent, roots, short=True, vfx={b.key: v}))
+        if common.is_log_text(txt):
+            continue            # the level test of a log macro on the way to the refusal decides nothing about the reply
+        atoms[u] = txt
 
     def ev(assign):
         seen = set()
